@@ -65,6 +65,12 @@ def cases(tier):
     for dim in (1, 2, 3):
         for level in (1, 2, 3):
             yield {'m': 'cantor', 'dim': dim, 'level': level}
+    for dim in (4, 5):                  # more directions at level 1 (3^dim cells)
+        for m_ in ('cantor', 'multisponge', 'vicsek'):
+            yield {'m': m_, 'dim': dim, 'level': 1}
+    for m_ in ('cantor', 'multisponge', 'vicsek'):
+        yield {'m': m_, 'dim': 2, 'level': 2, 'history': True}
+    yield {'m': 'cantor', 'dim': 1, 'level': 3, 'history': True}
     for level in (4, 5, 6):            # deeper levels in low dimension (3^level cells per direction)
         yield {'m': 'cantor', 'dim': 1, 'level': level}
         if level <= 5:            # (multisponge / vicsek_fractal are documented for dimension > 1)
@@ -296,7 +302,13 @@ def run_case(case, seed):
                     r.close(key + ':rhs', val, rhs, 1e-12)
         elif m in ('cantor', 'multisponge', 'vicsek'):
             dim, level = case['dim'], case['level']
-            F = {'cantor': mdl.cantor_dust, 'multisponge': mdl.multisponge, 'vicsek': mdl.vicsek_fractal}[m](dim, level)
+            fr_ = {'cantor': mdl.cantor_dust, 'multisponge': mdl.multisponge, 'vicsek': mdl.vicsek_fractal}[m]
+            if case.get('history'):
+                # call history: the level-1 pattern is requested, the returned array is edited in place (inverted), then the
+                # fractal is requested again
+                first = fr_(dim, 1)
+                first[...] = 1 - np.asarray(first)
+            F = fr_(dim, level)
             seed_rule = {'cantor': lambda mid: mid == 0, 'multisponge': lambda mid: mid <= 1, 'vicsek': lambda mid: mid >= dim - 1}[m]
             seed_ = np.zeros([3] * dim, dtype=int)
             for idx in itertools.product(range(3), repeat=dim):
